@@ -52,6 +52,12 @@ CLAIMS = {
     "C16": ("pyvc VCs (Chart.notes_per_second, _notes_per_second, last_note_end_timestamp)",
             "Rate = count of notes with start time in the closed interval / interval seconds (each float operation correctly rounded), bound resolution for tick/timestamp/omitted forms, ValueError for absent track, no notes, non-positive interval.",
             "C16"),
+    "C17": ("fxvc modular frame analysis of every function of the package (write sites classified by ownership), memo purity, no mutable module/class/default state, no nondeterministic source",
+            "Every function modifies only objects it allocates (47 write sites, all local accumulators or self in __init__); the four lru_cache functions and five cached properties are pure and keyed by all arguments; no module-level, class-level or default-argument mutable object is written or shared; hence a parse is a function of (text, selection) alone. The thread-interleaving clause is a corollary under the documented thread-safety of lru_cache/logging: schedules themselves are not modelled by this family.",
+            "7.3, C17"),
+    "C19": ("fxvc frame obligations on the read-only API + ground facts on the live classes + pyvc VC of Chart.__getitem__",
+            "modifies-nothing for every query/rendering/comparison function, no auto-inserting mapping outside the per-call ParsedDataMap, cached-property memos outside equality/repr, 27 frozen dataclasses reject assignment. Holds after the fix: commit 5705560 (the defaultdict allocation is reported on the original tree).",
+            "C19"),
 }
 
 NOT_YET = {}
